@@ -145,7 +145,11 @@ class C08(H.Oracle):
 
 
 def generate(seed, tier='quick'):
-    return H.generate(seed, PROFILE)
+    G.NameGen.rr_max = 1100        # C08 quantifies over name lengths 1..>1000 bytes
+    try:
+        return H.generate(seed, PROFILE)
+    finally:
+        G.NameGen.rr_max = 255
 
 
 def execute(plan):
